@@ -24,11 +24,13 @@ def run(tier, seed):
     full = VERSIONS if tier != 'quick' else sorted(rng.sample(VERSIONS, 2))
     chk.dist['versions_exhaustive'] = full
     jobs, meta = [], []
+    newly_bad = vlib.newly_bad_segments()     # aims the search when a table obligation no longer checks
+    chk.dist['segments_breaking_segWF_now'] = newly_bad
     for v in VERSIONS:
         lib = hl7apy.load_library(v)
         names = sorted(lib.SEGMENTS)
         if v not in full:
-            names = sorted(set(rng.sample(names, 12)) | (set(ex.get(v, [])) & set(names)))
+            names = sorted(set(rng.sample(names, 12)) | ((set(ex.get(v, [])) | set(newly_bad.get(v, []))) & set(names)))
         for seg in names:
             ref = lib.SEGMENTS[seg]
             rows = ref[1] if gen.is_seq(ref) and len(ref) >= 2 and gen.is_seq(ref[1]) else []
